@@ -245,15 +245,16 @@ def check(ctx):
     own_id_only(ctx, o4)
 
     # ---- C07.5 --------------------------------------------------------------------------------------
-    o5 = Ob('C07.5', 'K5', 'Event.execute never runs the action of a cancelled event (C01.6)')
-    obs.append(o5)
-    sub = c01.check(ctx)
-    six = [x for x in sub if x.id == 'C01.6'][0]
-    o5.instances = six.instances
-    o5.nontrivial = set(six.nontrivial)
-    for f in six.findings:
-        o5.fail(P, f.where, f.construct, f.message, file=f.file, line=f.line, path=f.path)
-    o5.samples = six.samples[:2]
+    obs.append(ctx.shared('c01', 'C01.6', 'C07.5', 'a cancelled event stays in its list; it never runs because Event.execute honours the cancelled flag'))
+    obs.append(ctx.shared('c01', 'C01.5', 'C07.6', 'events scheduled after a pause or cancel call are unaffected by it: every accepted request is queued as a live, unpaused event '
+                          'with the time, owner, action and priority it was given (nothing is dropped as a "duplicate" of a cancelled or paused twin, held back, or retimed)'))
+    obs.append(ctx.shared('c01', 'C01.1', 'C07.7', 'taking the events of one asset out of the pending list leaves all others in their order: one queue discipline only '
+                          '(an element removed from the middle of a heap breaks the order of the rest)'))
+    o8 = Ob('C07.8', 'K8', '"the events of that asset" are selected by id: ids are drawn from one counter for all assets (one counter owned by class Asset, +1 per construction), '
+                           'so no two of them -- devices or parts -- share an id')
+    from .c06 import unique_ids
+    unique_ids(ctx, o8)
+    obs.append(o8)
     return obs
 
 
